@@ -315,6 +315,8 @@ def plan(plan, tier, seed, prop="C01", selector=None, twice=None):
             verus_shape_guards(plan)
         except Exception as e:
             plan.anchor_errors.append(("C01.dispatch.guards", str(e)))
+        from units import fallback
+        fallback.unit(plan, "C01", [("impl_mech_binop_fxn", "src/core/src/stdlib.rs", r"macro_rules!\s*impl_mech_binop_fxn", r"\$gen_fxn")])
     plan.trusted += ["Verus 0.2026.09.13 / Z3 (scalar kernels, K)", "Kani 0.68 MIR->goto translation and CBMC 6.11 (bit-precise, incl. IEEE-754)", "nalgebra 0.34 is executed, not modelled",
                      "rustc; mirror = /repo sources + appended cfg(kani) harness modules only"]
     plan.assumptions += [
